@@ -84,6 +84,33 @@ def _seq_sum(s, lo=None, hi=None):
     return sym.seq_sum(s)
 
 
+@spec("psum")
+def _psum(s, k):
+    """prefix sum s[0] + ... + s[k-1] (uninterpreted ssum on the sequence's own array, unfolded at k)"""
+    s = SSeq.of(s)
+    arr, sort = sym.node_to_array(s.node)
+    return sym.ssum_range(arr, sort, 0, k)
+
+
+@spec("nonneg_prefix_sums")
+def _nonneg_prefix_sums(s):
+    """formula `all elements >= 0`; as a side effect the (trusted, Lean-twinned) lemma 'prefix sums of a sequence of
+    non-negative integers are monotone' is made available for this sequence"""
+    s = SSeq.of(s)
+    arr, sort = sym.node_to_array(s.node)
+    n = lift(s.length())
+    allnn = sym.seq_forall(s, lambda v: v >= 0)
+    f = sym._ssum_fn(sort)
+    c = cur()
+    key = ("psum_mono", str(arr))
+    if key not in c.axioms_done:
+        c.axioms_done.add(key)
+        i, j = z3.Ints("i!mono j!mono")
+        c.axioms.append(z3.Implies(allnn, z3.ForAll([i, j], z3.Implies(z3.And(0 <= i, i <= j, j <= n), f(arr, 0, i) <= f(arr, 0, j)),
+                                                      patterns=[z3.MultiPattern(f(arr, 0, i), f(arr, 0, j))])))
+    return sym.wrap_expr(allnn)
+
+
 @spec("implies")
 def _implies(a, b):
     return vrt.Implies(a, b)
